@@ -215,12 +215,68 @@ var wrongJSON = []string{`[1,2,3]`, `"just a string"`, `123`, `null`, `true`, `{
 var wrongCmdJSON = []string{`[1,2,3]`, `"just a string"`, `123`, `true`, `{"CommandType":"x","CommandBody":5}`, `{"CommandType":1e400}`,
 	`{"CommandId":7}`, `[[[[[[[[[[[[[[[[[[[[[[[[[[[[[[[[]]]]]]]]]]]]]]]]]]]]]]]]]]]]]]]]`}
 
+// JSON edge forms (payload classes null, scalar, emptyobj, array, nested, dupkeys, bignum, badutf8)
+var edgeForms = map[string][]string{
+	"null":     {`null`, ` null `, "\n\tnull\r\n"},
+	"scalar":   {`true`, `0`, `"str"`, `false`, `-1.5e3`, `""`},
+	"emptyobj": {`{}`, ` { } `},
+	"array":    {`[]`, `[{}]`, `[null]`, `[[],{}]`},
+}
+
+func edgeJSON(k, pay string, r *rand.Rand) []byte {
+	if fs, ok := edgeForms[pay]; ok {
+		return []byte(fs[r.Intn(len(fs))])
+	}
+	switch pay {
+	case "nested": // deeper than encoding/json's limit of 10000, closed or not, arrays or objects
+		n := 10001 + r.Intn(3000)
+		switch r.Intn(3) {
+		case 0:
+			return []byte(strings.Repeat("[", n))
+		case 1:
+			return []byte(strings.Repeat("[", n) + strings.Repeat("]", n))
+		default:
+			return []byte(strings.Repeat(`{"a":`, n) + "1" + strings.Repeat("}", n))
+		}
+	case "dupkeys":
+		switch k {
+		case "CMD", "RESP":
+			return []byte(`{"CommandType":10,"CommandType":11,"CommandBody":"{}","CommandBody":"x","CommandId":"a","CommandId":"b"}`)
+		case "HS":
+			return []byte(`{"client_id":1,"client_id":0,"token":"a","token":"new-client","connection_type":"tunnel","connection_type":"control"}`)
+		default:
+			return []byte(`{"tunnel_id":"a","tunnel_id":"b","mapping_id":"m","mapping_id":"n","resume_token":"x","resume_token":""}`)
+		}
+	case "bignum":
+		switch k {
+		case "CMD", "RESP":
+			return []byte([]string{`{"CommandType":1e400}`, `{"CommandType":99999999999999999999}`, `{"CommandType":-1}`, `{"CommandType":256}`}[r.Intn(4)])
+		case "HS":
+			return []byte([]string{`{"client_id":1e400}`, `{"client_id":123456789012345678901234567890}`, `{"client_id":-9223372036854775809}`, `{"client_id":1.5}`}[r.Intn(4)])
+		default:
+			return []byte([]string{`{"tunnel_id":"t","target_port":1e400}`, `{"tunnel_id":"t","target_port":99999999999999999999}`, `{"mapping_id":"m","target_port":-2147483649}`}[r.Intn(3)])
+		}
+	case "badutf8":
+		switch k {
+		case "CMD", "RESP":
+			return []byte("{\"CommandType\":10,\"CommandId\":\"\xff\xfe\",\"CommandBody\":\"\xc0\xaf\xed\xa0\x80\"}")
+		case "HS":
+			return []byte("{\"client_id\":0,\"token\":\"\xff\xfenew-client\",\"version\":\"\xc0\xaf\"}")
+		default:
+			return []byte("{\"tunnel_id\":\"\xff\xfe\",\"mapping_id\":\"\xc0\xaf\",\"resume_token\":\"\xed\xa0\x80\"}")
+		}
+	}
+	return nil
+}
+
 // content builds the (uncompressed) body content of class pay at exactly n bytes (n < 0: natural size).
 func content(k, pay string, n int, r *rand.Rand) []byte {
 	var b []byte
 	switch pay {
 	case "empty":
 		return nil
+	case "null", "scalar", "emptyobj", "array", "nested", "dupkeys", "bignum", "badutf8":
+		return edgeJSON(k, pay, r)
 	case "bad":
 		b = append([]byte{0x00, 0xff, '{', '{', '"'}, []byte("not json at all \x01\x02")...)
 		if n > len(b) {
@@ -361,6 +417,23 @@ func (f *frame) body(r *rand.Rand) (body []byte, declared uint32) {
 					return out
 				})
 			}
+		case "forged": // the bomb's deflate stream, but the ISIZE trailer claims 100 bytes
+			full = cached("gzforged", func() []byte {
+				out := append([]byte(nil), cached("gzbomb", func() []byte { return gz(gzip.BestCompression, make([]byte, 10*maxBody)) })...)
+				binary.LittleEndian.PutUint32(out[len(out)-4:], 100)
+				return out
+			})
+			if f.Sc == "MAX" { // padded in front with a stored-block member up to a maximum-size body
+				full = cached("gzforged:max", func() []byte { return padFront(cached("gzforged", nil)) })
+			}
+		case "multi": // a member inflating to 10 x the limit followed by a tiny member (its ISIZE is the last trailer)
+			full = cached("gzmulti", func() []byte {
+				big := cached("gzbomb", func() []byte { return gz(gzip.BestCompression, make([]byte, 10*maxBody)) })
+				return append(append([]byte(nil), big...), gz(gzip.BestCompression, []byte("tiny"))...)
+			})
+			if f.Sc == "MAX" { // padded in front with stored-block members up to a maximum-size body
+				full = cached("gzmulti:max", func() []byte { return padFront(cached("gzmulti", nil)) })
+			}
 		case "corrupt":
 			full = append([]byte(nil), gz(gzip.BestSpeed, content(f.K, "good", -1, r))...)
 			switch r.Intn(3) {
@@ -397,6 +470,28 @@ func (f *frame) body(r *rand.Rand) (body []byte, declared uint32) {
 		return full[:len(full)/2], declared
 	}
 	return full, declared
+}
+
+// padFront returns a body of exactly maxBody bytes: one gzip member of stored zero blocks (its header
+// name absorbs the rounding) followed by tail, i.e. a well-formed multi-member stream ending in tail.
+func padFront(tail []byte) []byte {
+	want := maxBody - len(tail)
+	n := want - 18 - 5*(want/65535+1)
+	for storedSize(n+1) <= want-2 {
+		n++
+	}
+	for storedSize(n) > want-2 {
+		n--
+	}
+	var buf bytes.Buffer
+	w, _ := gzip.NewWriterLevel(&buf, gzip.NoCompression)
+	w.Name = strings.Repeat("p", want-storedSize(n)-1)
+	w.Write(make([]byte, n))
+	w.Close()
+	if buf.Len() != want {
+		panic(fmt.Sprintf("padFront: %d != %d", buf.Len(), want))
+	}
+	return append(buf.Bytes(), tail...)
 }
 
 var unkTypes = []byte{0x00, 0x04, 0x0f, 0x12, 0x1f, 0x25, 0x30, 0x3f}
@@ -562,7 +657,7 @@ func drive(env *fw.Env, b fw.Behaviour) *fw.Trace {
 		var pkt *packet.TransferPacket
 		var rerr error
 		res := measured(wd, func() { pkt, _, rerr = sc.Stream.ReadPacket() })
-		ev := fw.Event{"ev": "Read", "panicked": res.panicked, "timedOut": res.timedOut, "allocKiB": res.allocKiB, "ms": res.dur.Milliseconds()}
+		ev := fw.Event{"ev": "Read", "panicked": res.panicked, "timedOut": res.timedOut, "allocKiB": res.allocKiB, "ms": res.dur.Milliseconds(), "bodyKiB": 0}
 		switch {
 		case res.panicked:
 			ev["outcome"], ev["msg"] = "None", res.panicMsg
@@ -573,6 +668,11 @@ func drive(env *fw.Env, b fw.Behaviour) *fw.Trace {
 		default:
 			ev["outcome"] = "Packet"
 			ev["type"] = int(pkt.PacketType)
+			n := len(pkt.Payload)
+			if pkt.CommandPacket != nil {
+				n += len(pkt.CommandPacket.CommandBody)
+			}
+			ev["bodyKiB"] = (n + 1023) / 1024
 		}
 		t.Events = append(t.Events, ev)
 		if ev["outcome"] != "Packet" {
@@ -628,9 +728,26 @@ func extra(env *fw.Env) []json.RawMessage {
 		{K: "TOPEN", Hdr: 4, Sc: "U32", Av: 1, Gz: "na", Pay: "bad"},
 		{K: "HS", Hdr: 4, Sc: "OVER", Av: 0, Gz: "na", Pay: "bad"},
 		{K: "HS", Hdr: 2, Sc: "0", Gz: "na", Pay: "empty"},
+		{K: "PAY", Z: true, Hdr: 4, Sc: "S", Av: 2, Gz: "forged", Pay: "bad"},
+		{K: "CMD", Z: true, Hdr: 4, Sc: "S", Av: 2, Gz: "forged", Pay: "bad"},
+		{K: "PAY", Z: true, Hdr: 4, Sc: "S", Av: 2, Gz: "multi", Pay: "bad"},
+		{K: "HS", Z: true, Hdr: 4, Sc: "S", Av: 2, Gz: "multi", Pay: "bad"},
+		{K: "TOPEN", Z: true, Hdr: 4, Sc: "MAX", Av: 2, Gz: "multi", Pay: "bad"},
 	} {
 		f := f
 		add(caseBeh{Kind: "frame", Frame: &f, Salt: env.Seed})
+	}
+	// every JSON edge form for every dispatched kind (small, uncompressed; null also compressed), several seeds each
+	for _, k := range []string{"HS", "TOPEN", "CMD", "RESP", "PAY"} {
+		for _, pay := range []string{"null", "scalar", "emptyobj", "array", "nested", "dupkeys", "bignum", "badutf8"} {
+			for v := 0; v < 3; v++ {
+				f := frame{K: k, Hdr: 4, Sc: "S", Av: 2, Gz: "na", Pay: pay}
+				if v == 2 && (pay == "null" || pay == "emptyobj") {
+					f.Z, f.Gz = true, "ok"
+				}
+				add(caseBeh{Kind: "frame", Frame: &f, Salt: env.Seed*31 + int64(v)})
+			}
+		}
 	}
 	nr, nm := 40, 90
 	if env.Tier == "thorough" {
@@ -678,6 +795,7 @@ func selfTest(env *fw.Env, acc []*fw.Trace) []*fw.Trace {
 			func(c *fw.Trace) { c.Events[1]["allocKiB"] = int64(6*16384 + 1024 + 1) },
 			func(c *fw.Trace) { c.Events[2]["allocKiB"] = int64(12*16384 + 1024 + 1) },
 			func(c *fw.Trace) { c.Events[1]["outcome"] = "Reply" },
+			func(c *fw.Trace) { c.Events[1]["bodyKiB"] = 16385 },
 			func(c *fw.Trace) { c.Events[2]["outcome"] = "Packet" },
 			func(c *fw.Trace) { c.Events = c.Events[:1] }, // no report at all
 		} {
@@ -747,7 +865,7 @@ func main() {
 			if env.Tier == "thorough" {
 				return 0
 			}
-			return 200
+			return 260
 		},
 		Expand: func(env *fw.Env, src string, raw json.RawMessage) []json.RawMessage {
 			var g struct {
@@ -776,7 +894,7 @@ func main() {
 		JudgeCfg:    "FramingTraceX.cfg",
 		SelfTest:    selfTest,
 		NonTrivial:  func(t *fw.Trace) bool { return len(t.Events) >= 2 },
-		Rule:        "one case per hostile frame class of spec/Framing.tla (type/flag class x length-field truncation x declared-size class {0,small,16MiB,16MiB+1,2^32-1} x body availability x gzip class {ratio~1, small->just-within-limit, bomb 10x limit, corrupt, truncated} x payload class {empty, not JSON, JSON of another shape, well-formed, huge}), concretised with seeded filler, plus seeded random byte strings and single-bit mutants of valid packets; each fed to the real ReadPacket and, when it decodes, to the real SessionManager.HandlePacket on a fresh connection; non-trivial = ReadPacket was reached",
+		Rule:        "one case per hostile frame class of spec/Framing.tla (type/flag class x length-field truncation x declared-size class {0,small,16MiB,16MiB+1,2^32-1} x body availability x gzip class {ratio~1, small->just-within-limit, bomb 10x limit, bomb with forged ISIZE, bomb member + tiny member, corrupt, truncated} x payload class {empty, not JSON, JSON of another shape, well-formed, huge, null, scalar, {}, array, too deeply nested, duplicate keys, out-of-range numbers, invalid UTF-8}), concretised with seeded filler, plus seeded random byte strings and single-bit mutants of valid packets; each fed to the real ReadPacket and, when it decodes, to the real SessionManager.HandlePacket on a fresh connection; non-trivial = ReadPacket was reached",
 		Assumptions: []string{
 			"allocation = runtime.MemStats.TotalAlloc delta around the call (process-wide; one call at a time, GC and background tickers covered by the 1 MiB slack); bound for ReadPacket 6 x 16 MiB + 1 MiB (DESIGN.md Appendix B), for HandlePacket 12 x 16 MiB + 1 MiB (spec/FramingTrace.tla)",
 			"hang = the call has not returned after 40 s (largest legitimate case measured: well under 2 s)",
